@@ -269,7 +269,7 @@ func init() {
 		name: "semver.Constraint.methods", systems: sysNames,
 		apis: []string{"semver.Constraint.String", "semver.Constraint.IsSimple", "semver.Constraint.HasPrerelease", "semver.Constraint.Set",
 			"semver.Set.String", "semver.Set.Empty"},
-		valid: func(g *genCtx, sys string) [][]byte { return [][]byte{csent(g, sys)} },
+		valid:  func(g *genCtx, sys string) [][]byte { return [][]byte{csent(g, sys)} },
 		splice: splice, dict: semverDict, simple: c1, longParts: []int{0}, weight: 3,
 		run: func(x *runner, sys string, in []byte) string {
 			s := semverSys[sys]
